@@ -73,6 +73,71 @@ def vcase(why, **kw):
     return dict({"kind": "header", "why": "C15: " + why, "judged_by": "spec/Header.tla (RefHash) / independent SHA-256"}, **kw)
 
 
+INVALID_TEXTS = ["start S\nstruct S { a: $A }\n",                                                   # no terminal declaration
+                 "start S\nstruct S { a: $A\nterminal T { $A: () }\n",                              # parse error
+                 "start S\nstruct S { a: $A } # oops\nterminal T { $A: () }\n",                      # lexical error
+                 "start S\nenum S { A(S S) B($A) }\nterminal T { $A: () }\n",                        # table conflict
+                 "start Q\nstruct S { a: $A }\nterminal T { $A: () }\n"]                              # undefined start
+
+
+def build_script_replay(run, rng, accepted, rounds):
+    """Every Build transition of the exhaustively explored BuildScript.tla (51 states: 4 grammar versions x 9 parser-file
+    contents x outcome of the last step) is replayed on the real code: `kv fresh` performs the build script's three
+    library calls (sha256 of the grammar, get_grammar_hash of the parser file, generate) on concrete texts; the predicted
+    outcome (fresh / regenerated / failed) and the predicted file content must match. Versions 1 and 2 are the same
+    grammar in two layouts, 3 is another grammar, 4 is a text generate rejects."""
+    r = common.tlc("MC_BuildScript", workers=1, timeout=600, coverage=True)
+    if r.error:
+        raise ToolError("MC_BuildScript: the build-script protocol violates its own invariants (specification defect):\n" + r.error)
+    run.add_tlc(r)
+    edges = r.tagged("EDGE")
+    if len(accepted) < 2:
+        log("  note: fewer than two accepted grammars, the build-script replay is skipped")
+        return
+    n = 0
+    for _ in range(rounds):
+        a, b = rng.sample(accepted, 2)
+        relaid = rng.choice([a + " ", a + "\n", "// c\n" + a, a.replace("\n", "\r\n") if "\r" not in a else a + "\t", a.rstrip("\n") if a.endswith("\n") else a + "\n\n"])
+        text = {1: a, 2: relaid, 3: b, 4: rng.choice(INVALID_TEXTS)}
+        if len({text[1], text[2], text[3]}) < 3:
+            continue
+        gen = {}
+        outs = common.kv("gen", [{"id": v, "src": text[v], "want": ["rust"]} for v in (1, 2, 3, 4)])
+        for v, o in zip((1, 2, 3, 4), outs):
+            gen[v] = o["res"]["rust"] if o["res"]["t"] == "ok" else None
+        if gen[1] is None or gen[2] is None or gen[3] is None or gen[4] is not None:
+            # which texts generate accepts is not C15's business: this concretisation does not fit the model's versions
+            run.notes["build_script_rounds_skipped"] = run.notes.get("build_script_rounds_skipped", 0) + 1
+            continue
+        digest = {v: hashlib.sha256(text[v].encode("utf-8")).hexdigest() for v in text}
+
+        def content(p):
+            if p["kind"] == "absent":
+                return None
+            if p["kind"] == "gen":
+                return gen[p["from"]]
+            if p["kind"] == "late":
+                return rng.choice(["fn f() {}\n// @sha256 %s\n", "\n// @sha256 %s\nfn f() {}\n", "/* c */\n// @sha256 %s\n"]) % digest[p["from"]]
+            return rng.choice(["// generated by hand\nfn f() {}\n", "", "fn f() {}\n"])
+        reqs = [{"id": i, "gram": text[e["gram"]], "parser": content(e["parser"])} for i, e in enumerate(edges)]
+        resps = common.kv("fresh", reqs, timeout=600)
+        for e, q, o in zip(edges, reqs, resps):
+            run.evaluations += 1
+            run.traces += 1
+            n += 1
+            want_written = gen[e["to"]["from"]] if e["outcome"] == "regenerated" else None
+            why = None
+            if o["outcome"] != e["outcome"]:
+                why = "the build script's step ended as %r, BuildScript.tla says %r" % (o["outcome"], e["outcome"])
+            elif o.get("written") != want_written:
+                why = "the build script wrote a parser file that is not generate's output for the current grammar text"
+            if why:
+                run.violation(vcase(why + " (grammar file: version %d, parser file: %s)" % (e["gram"], json.dumps(e["parser"])),
+                                    gram=q["gram"], parser=q["parser"], predicted=e["outcome"], observed=o["outcome"], kind="build-script"))
+            run.nontrivial.add(("build-script", e["gram"], e["parser"]["kind"], e["parser"]["from"], e["outcome"]))
+    run.notes["build_script_edges_replayed"] = n
+
+
 def check(prop, tier, seed):
     run = common.Run(prop, tier, seed)
     wd = common.workdir("header_%s" % tier)
@@ -132,6 +197,7 @@ def check(prop, tier, seed):
         s2 = s[:pos] + rng.choice([" ", "\n", "x", "\t"]) + s[pos:]
         if hashlib.sha256(s2.encode("utf-8")).hexdigest() == o.get("hash"):
             run.violation(vcase("freshness test succeeds for a different grammar text", src=s, other=s2))
+    build_script_replay(run, rng, [s for s, o in zip(srcs, resps) if o["res"]["t"] == "ok"], 3 if tier == "quick" else 40)
     if n_ok < 5:
         log("  note: only %d grammars of the header corpus were accepted by generate" % n_ok)
     run.notes["emitted_headers_checked"] = n_ok
@@ -143,6 +209,13 @@ def check(prop, tier, seed):
 
 def replay(prop, path):
     case = json.load(open(path))
+    if case.get("kind") == "build-script":
+        o = common.kv("fresh", [{"id": 0, "gram": case["gram"], "parser": case["parser"]}])[0]
+        log("observed %r, predicted %r" % (o.get("outcome"), case.get("predicted")))
+        if o.get("outcome") != case.get("predicted"):
+            print("VIOLATION property=%s replay=%s" % (prop, path))
+            return 1
+        return 0
     if "text" in case:
         o = common.kv("hash", [{"id": 0, "text": case["text"]}])[0]
         log("observed %r, predicted %r" % (o.get("res"), case.get("predicted")))
